@@ -57,7 +57,7 @@ Proof. exact insert_after_shutdown_v2. Qed.
 Print Assumptions C16_enqueue_after_shutdown_v2.
 
 (* V1: known finding D2 — Enqueue after Stop panics on the closed channel *)
-Definition d2_cfg : cfg := mkCfg V1 4 false false 0 0 0 0 0 0 [mkW 0 0 0] 0 0 0.
+Definition d2_cfg : cfg := mkCfg V1 4 false false 0 0 0 0 0 0 [mkW 0 0 0] 0 0 0 0.
 Theorem C16_enqueue_after_shutdown_v1_refuted :
   exists s os, run d2_cfg (init d2_cfg)
     [AStart; AStop; ILoopShutdown; IStopRet; AEnqueue (mkE false (Some 0%nat) 1 1 1 true 0 false); IEnqInsert 0] = Some (s, os)
